@@ -40,8 +40,13 @@ class SourceModule(Object):
         source = Source(open(self.filename).read(), self.filename)
         # visible to re-entrant lookups: a cycle of star imports ends here
         scope = self.__dict__['scope'] = SourceScope(source)
-        extract(source.tree, scope.flow)
-        scope.resolve_star_imports(self.project)
+        try:
+            extract(source.tree, scope.flow)
+            scope.resolve_star_imports(self.project)
+        except BaseException:
+            # a half-built scope must not outlive the failure (syntax error in the file)
+            self.__dict__.pop('scope', None)
+            raise
         return scope
 
     @property
